@@ -86,17 +86,17 @@ func partString(p []int) string {
 
 // Pre-states of a receiver that is not aliased to an operand.
 const (
-	preFresh    = iota // zero value + SetPrec/SetMode
-	preLonger          // held a 4-word value, cap 8, stale words B−1 beyond
-	preShorter         // held a 1-word value (cap 1)
-	preInf             // +Inf
-	preNegInf          // −Inf
-	preNegZero         // −0 with a large stale buffer
-	preCapExact        // finite value whose buffer is exactly 2 words
-	preInexact         // finite value with acc = Above and negative sign
-	preBigDirty        // 40-word buffer full of B−1, now holding a 1-word value
-	preCancelled       // held a 6-word value, then z.Sub(z, z): zero whose mantissa slice is empty but keeps its dirty array
-	preParsedZero      // held a 6-word value, then parsed "0" (and a rejected literal): empty mantissa over a dirty array
+	preFresh      = iota // zero value + SetPrec/SetMode
+	preLonger            // held a 4-word value, cap 8, stale words B−1 beyond
+	preShorter           // held a 1-word value (cap 1)
+	preInf               // +Inf
+	preNegInf            // −Inf
+	preNegZero           // −0 with a large stale buffer
+	preCapExact          // finite value whose buffer is exactly 2 words
+	preInexact           // finite value with acc = Above and negative sign
+	preBigDirty          // 40-word buffer full of B−1, now holding a 1-word value
+	preCancelled         // held a 6-word value, then z.Sub(z, z): zero whose mantissa slice is empty but keeps its dirty array
+	preParsedZero        // held a 6-word value, then parsed "0" (and a rejected literal): empty mantissa over a dirty array
 	numPre
 )
 
